@@ -490,15 +490,15 @@ func runHistCtx(h *HistCtx) (out []byte, panicked bool) {
 	case "Sprintfn":
 		return runOnSprintfn(h.Ops), false
 	case "SafeFormat":
-		return []byte(redact.Sprintf("pre "+dir+" post", SafeFmtV{ops: h.Ops})), false
+		return []byte(redact.Sprintf("pre "+dir+" post", newSafeFmtV(h.Ops, 0))), false
 	case "UnderUnsafe":
-		return []byte(redact.Sprintf("pre "+dir+" post", redact.Unsafe(SafeFmtV{ops: h.Ops}))), false
+		return []byte(redact.Sprintf("pre "+dir+" post", redact.Unsafe(newSafeFmtV(h.Ops, 0)))), false
 	case "UnderSafe":
-		return []byte(redact.Sprintf("pre "+dir+" post", redact.Safe(SafeFmtV{ops: h.Ops}))), false
+		return []byte(redact.Sprintf("pre "+dir+" post", redact.Safe(newSafeFmtV(h.Ops, 0)))), false
 	case "InSlice":
-		return []byte(redact.Sprintf(dir, []interface{}{"u", SafeFmtV{ops: h.Ops}, 3})), false
+		return []byte(redact.Sprintf(dir, []interface{}{"u", newSafeFmtV(h.Ops, 0), 3})), false
 	case "InStruct":
-		return []byte(redact.Sprintf(dir, StructA{X: &SafeFmtP{ops: h.Ops}, Y: "y", z: SafeFmtV{ops: h.Ops}})), false
+		return []byte(redact.Sprintf(dir, StructA{X: newSafeFmtP(h.Ops, 0), Y: "y", z: newSafeFmtV(h.Ops, 0)})), false
 	case "PrintSB":
 		var sb redact.StringBuilder
 		runWriterOps(&sbTarget{b: &sb}, h.Ops, 0)
